@@ -2475,6 +2475,12 @@ func (te *TemplateEngine) renderTableTemplate(table *Table, data *TemplateData) 
 	if !exists || len(listData) == 0 {
 		// 删除模板行
 		table.Rows = append(table.Rows[:templateRowIndex], table.Rows[templateRowIndex+1:]...)
+		// 其余行中的普通变量仍需替换
+		for i := range table.Rows {
+			if err := te.replaceVariablesInTableRow(&table.Rows[i], data); err != nil {
+				return err
+			}
+		}
 		return nil
 	}
 
@@ -2482,9 +2488,12 @@ func (te *TemplateEngine) renderTableTemplate(table *Table, data *TemplateData) 
 	templateRow := table.Rows[templateRowIndex]
 	newRows := make([]TableRow, 0)
 
-	// 保留模板行之前的行（深度克隆以保持样式）
+	// 保留模板行之前的行（深度克隆以保持样式），并替换其中的普通变量
 	for _, row := range table.Rows[:templateRowIndex] {
 		clonedRow := te.cloneTableRow(&row)
+		if err := te.replaceVariablesInTableRow(clonedRow, data); err != nil {
+			return err
+		}
 		newRows = append(newRows, *clonedRow)
 	}
 
@@ -2595,15 +2604,35 @@ func (te *TemplateEngine) renderTableTemplate(table *Table, data *TemplateData) 
 		newRows = append(newRows, *newRow)
 	}
 
-	// 保留模板行之后的行（深度克隆以保持样式）
+	// 保留模板行之后的行（深度克隆以保持样式），并替换其中的普通变量
 	for _, row := range table.Rows[templateRowIndex+1:] {
 		clonedRow := te.cloneTableRow(&row)
+		if err := te.replaceVariablesInTableRow(clonedRow, data); err != nil {
+			return err
+		}
 		newRows = append(newRows, *clonedRow)
 	}
 
 	// 更新表格行
 	table.Rows = newRows
 
+	return nil
+}
+
+// replaceVariablesInTableRow 替换一行（非循环模板行）中各单元格段落及嵌套表格里的变量
+func (te *TemplateEngine) replaceVariablesInTableRow(row *TableRow, data *TemplateData) error {
+	for j := range row.Cells {
+		for k := range row.Cells[j].Paragraphs {
+			if err := te.replaceVariablesInParagraph(&row.Cells[j].Paragraphs[k], data); err != nil {
+				return err
+			}
+		}
+		for k := range row.Cells[j].Tables {
+			if err := te.replaceVariablesInTable(&row.Cells[j].Tables[k], data); err != nil {
+				return err
+			}
+		}
+	}
 	return nil
 }
 
